@@ -111,7 +111,9 @@ inline std::unique_ptr<ISpline> makeSplineHist(Ctx &c, Rng &r, const Problem &p,
         Problem q = genProblem(r, p.order, p.dim, r.coin(0.6) ? p.N : r.range(1, 8));
         // optimisation loops re-update one object with partly unchanged inputs: same durations / same waypoints /
         // exactly the same problem again / the final problem's durations
-        if (havePrev && r.coin(0.5))
+        // the last intermediate step is the one whose relation to the final problem matters
+        const bool lastStep = st == steps - 1;
+        if (havePrev && r.coin(lastStep ? 0.25 : 0.5))
         {
             int k = r.range(0, 3);
             Problem q2 = genProblem(r, p.order, p.dim, prev.N);
@@ -141,12 +143,12 @@ inline std::unique_ptr<ISpline> makeSplineHist(Ctx &c, Rng &r, const Problem &p,
                 q2 = prev;
             q = q2;
         }
-        else if (r.coin(0.3))
+        else if (r.coin(lastStep ? 0.7 : 0.3))
         {
             q = genProblem(r, p.order, p.dim, p.N);
             q.T = p.T;
             q.t0 = p.t0;
-            int k = r.range(0, 2);
+            int k = r.range(0, 4);
             if (k == 0)
             {
                 double eps = std::pow(10.0, -(double)r.range(7, 12));
@@ -155,6 +157,29 @@ inline std::unique_ptr<ISpline> makeSplineHist(Ctx &c, Rng &r, const Problem &p,
             }
             else if (k == 1 && resplitSameHorizon(r, q))
                 c.event("history.same_horizon_other_split_before_final");
+            else if (k == 2)
+            {
+                // exactly one duration differs from the final problem's (the last, the first or any one): re-timing of one
+                // segment, a finite-difference probe on one duration
+                int which = r.range(0, 2);
+                int i = which == 0 ? p.N - 1 : (which == 1 ? 0 : r.range(0, p.N - 1));
+                q.T[i] *= r.coin() ? r.uni(0.6, 1.6) : (1.0 + 1e-6 * r.uni(-1, 1));
+                if (r.coin())
+                {
+                    q.P = p.P;
+                    q.bc = p.bc;
+                }
+                c.event("history.one_duration_differs_before_final");
+            }
+            else if (k == 3)
+            {
+                // the final problem itself except for a tiny move of one waypoint coordinate (tiny compared with the norm of
+                // all waypoints, possibly large compared with that coordinate's own values)
+                q = p;
+                double nrm = std::max(p.P.norm(), 1e-300);
+                q.P(r.range(0, p.N), r.range(0, p.dim - 1)) += nrm * std::pow(10.0, -(double)r.range(13, 15)) * (r.coin() ? 1 : -1);
+                c.event("history.tiny_waypoint_move_before_final");
+            }
         }
         prev = q;
         havePrev = true;
